@@ -161,10 +161,18 @@ where
     }
 
     fn may_have(&self, o: &Self::A) -> bool {
+        #[cfg(rb_verif)]
+        if crate::hb::verif::prefilter_off() {
+            return true;
+        }
         self.head.may_have(&o.head) && self.tail.may_have(&o.tail)
     }
 
     fn may_have_glyph(&self, g: GlyphId) -> bool {
+        #[cfg(rb_verif)]
+        if crate::hb::verif::prefilter_off() {
+            return true;
+        }
         self.head.may_have_glyph(g) && self.tail.may_have_glyph(g)
     }
 }
@@ -177,6 +185,90 @@ pub type hb_set_digest_t = hb_set_digest_combiner_t<
         hb_set_digest_bits_pattern_t<9>
     >,
 >;
+
+#[cfg(rb_verif)]
+pub mod verif_hooks {
+    //! Access to the digest for the verification harness.
+    use super::*;
+
+    pub const SHIFTS: [u8; 3] = [4, 0, 9];
+
+    /// (mask after, return value) of `add_range` on one bit pattern with the given shift.
+    pub fn pattern_add_range(shift: u8, mask: u64, a: u16, b: u16) -> (u64, bool) {
+        fn go<const S: u8>(mask: u64, a: u16, b: u16) -> (u64, bool) {
+            let mut d = hb_set_digest_bits_pattern_t::<S> { mask };
+            let r = d.add_range(GlyphId(a), GlyphId(b));
+            (d.mask, r)
+        }
+        match shift {
+            0 => go::<0>(mask, a, b),
+            4 => go::<4>(mask, a, b),
+            9 => go::<9>(mask, a, b),
+            _ => panic!("unsupported shift"),
+        }
+    }
+
+    pub fn pattern_add(shift: u8, mask: u64, g: u16) -> u64 {
+        fn go<const S: u8>(mask: u64, g: u16) -> u64 {
+            let mut d = hb_set_digest_bits_pattern_t::<S> { mask };
+            d.add(GlyphId(g));
+            d.mask
+        }
+        match shift {
+            0 => go::<0>(mask, g),
+            4 => go::<4>(mask, g),
+            9 => go::<9>(mask, g),
+            _ => panic!("unsupported shift"),
+        }
+    }
+
+    pub fn pattern_may_have_glyph(shift: u8, mask: u64, g: u16) -> bool {
+        fn go<const S: u8>(mask: u64, g: u16) -> bool {
+            hb_set_digest_bits_pattern_t::<S> { mask }.may_have_glyph(GlyphId(g))
+        }
+        match shift {
+            0 => go::<0>(mask, g),
+            4 => go::<4>(mask, g),
+            9 => go::<9>(mask, g),
+            _ => panic!("unsupported shift"),
+        }
+    }
+
+    /// The full three-pattern digest, exposed as its three masks in the order of `SHIFTS`.
+    #[derive(Clone)]
+    pub struct Digest(pub hb_set_digest_t);
+
+    impl Digest {
+        pub fn new() -> Self {
+            Digest(hb_set_digest_t::new())
+        }
+        pub fn from_masks(m: [u64; 3]) -> Self {
+            let mut d = hb_set_digest_t::new();
+            d.head.mask = m[0];
+            d.tail.head.mask = m[1];
+            d.tail.tail.mask = m[2];
+            Digest(d)
+        }
+        pub fn masks(&self) -> [u64; 3] {
+            [self.0.head.mask, self.0.tail.head.mask, self.0.tail.tail.mask]
+        }
+        pub fn add(&mut self, g: u16) {
+            self.0.add(GlyphId(g))
+        }
+        pub fn add_array(&mut self, gs: &[u16]) {
+            self.0.add_array(gs.iter().map(|g| GlyphId(*g)))
+        }
+        pub fn add_range(&mut self, a: u16, b: u16) -> bool {
+            self.0.add_range(GlyphId(a), GlyphId(b))
+        }
+        pub fn may_have(&self, o: &Digest) -> bool {
+            self.0.may_have(&o.0)
+        }
+        pub fn may_have_glyph(&self, g: u16) -> bool {
+            self.0.may_have_glyph(GlyphId(g))
+        }
+    }
+}
 
 #[rustfmt::skip]
 #[cfg(test)]
